@@ -2647,6 +2647,12 @@ static int cfg_opt_print_pff_indent(cfg_opt_t *opt, FILE *fp,
 		return CFG_FAIL;
 	}
 
+	/* a pointer value has no text of its own: without a print callback
+	 * there is nothing to write for the option ("name=" alone would take
+	 * the next word of the file as its value when read back) */
+	if (opt->type == CFGT_PTR && !opt->pf)
+		return CFG_SUCCESS;
+
 	if (is_set(CFGF_COMMENTS, opt->flags) && opt->comment) {
 		cfg_indent(fp, indent);
 		cfg_print_comment(opt->comment, fp);
